@@ -1,0 +1,26 @@
+//go:build verif
+
+// Package verifhook provides named suspension points for external verification drivers.
+// With the build tag `verif` a driver may install a handler; without it At is an empty,
+// inlined function.
+package verifhook
+
+import "sync/atomic"
+
+var handler atomic.Value // func(name string)
+
+// Set installs the handler called at every hook point (nil disables).
+func Set(f func(name string)) {
+	if f == nil {
+		handler.Store((func(string))(nil))
+		return
+	}
+	handler.Store(f)
+}
+
+// At marks a suspension point.
+func At(name string) {
+	if f, ok := handler.Load().(func(string)); ok && f != nil {
+		f(name)
+	}
+}
